@@ -31,8 +31,6 @@ CONTRACTS = [
     # ------------------------------------------------------------------ assumed / proved elsewhere
     Contract("ext::multiprocessing.cpu_count", returns="int", ensures=["result >= 1"], raises={"ValueError": []},
              trusted_reason="A-LIB: cpu_count() is a positive integer (or raises)"),
-    Contract("context.py::Context.from_cwd", returns="Context", extern=True, fresh_result=True, raises={"ConductorError+": []},
-             trusted_reason="proved in contracts/context.py (C17)"),
     Contract("ext::TaskIndex.load_transitive_closure(cli)", params={"task_identifier": "TaskIdentifier"},
              modifies=["g_closure_ok"], ensures=["g_closure_ok"], raises={"ConductorError+": ["not g_closure_ok"]},
              trusted_reason="proved in contracts/task_index.py (C14): normal return <=> the closure is complete, acyclic and duplicate-free"),
